@@ -1,0 +1,171 @@
+//go:build verif
+
+package devicefinder
+
+// Contracts for govc (see /verif/DESIGN.md).  Comment-only file.
+
+//@ import agd github.com/AdguardTeam/AdGuardDNS/internal/agd
+//@ import dnsserver github.com/AdguardTeam/AdGuardDNS/internal/dnsserver
+//@ import profiledb github.com/AdguardTeam/AdGuardDNS/internal/profiledb
+//@ import agdpasswd github.com/AdguardTeam/AdGuardDNS/internal/agdpasswd
+//@ import netip net/netip
+//@ import url net/url
+
+//@ immutable Default.*
+
+// ---------------------------------------------------------------------------
+// C03: a device is recognised only through its own identifier and only when
+// its authentication policy is met.
+
+// The password check of the device's settings and the database lookups are
+// recorded in ghost state so that the contracts can refer to them.
+//@ ghost hashChecks int
+//@ ghost hashOK bool
+//@ interface agdpasswd.Authenticator method Authenticate
+//@   modifies hashChecks, hashOK
+//@   ensures hashChecks == old(hashChecks) + 1 && hashOK == ok
+//@ fun uiPasswordSet(u *url.Userinfo) bool
+//@ func (*url.Userinfo).Password
+//@   modifies nothing
+//@   ensures r1 == uiPasswordSet(u)
+
+// lookupKind: 1 device ID, 2 human ID, 3 linked IP, 4 dedicated IP, 5 auto-device creation.
+//@ ghost lookups int
+//@ ghost lookupKind int
+//@ ghost lookupKinds map[int]bool
+//@ interface profiledb.Interface method ProfileByDeviceID
+//@   modifies lookups, lookupKind, lookupKinds
+//@   ensures lookups == old(lookups) + 1 && lookupKind == 1 && lookupKinds[1] && (forall k int :: k != 1 ==> lookupKinds[k] == old(lookupKinds[k]))
+//@   ensures err == nil ==> p != nil && d != nil && d.Auth != nil
+//@ interface profiledb.Interface method ProfileByHumanID
+//@   modifies lookups, lookupKind, lookupKinds
+//@   ensures lookups == old(lookups) + 1 && lookupKind == 2 && lookupKinds[2] && (forall k int :: k != 2 ==> lookupKinds[k] == old(lookupKinds[k]))
+//@   ensures err == nil ==> p != nil && d != nil && d.Auth != nil
+//@ interface profiledb.Interface method ProfileByLinkedIP
+//@   modifies lookups, lookupKind, lookupKinds
+//@   ensures lookups == old(lookups) + 1 && lookupKind == 3 && lookupKinds[3] && (forall k int :: k != 3 ==> lookupKinds[k] == old(lookupKinds[k]))
+//@   ensures err == nil ==> p != nil && d != nil && d.Auth != nil
+//@ interface profiledb.Interface method ProfileByDedicatedIP
+//@   modifies lookups, lookupKind, lookupKinds
+//@   ensures lookups == old(lookups) + 1 && lookupKind == 4 && lookupKinds[4] && (forall k int :: k != 4 ==> lookupKinds[k] == old(lookupKinds[k]))
+//@   ensures err == nil ==> p != nil && d != nil && d.Auth != nil
+//@ interface profiledb.Interface method CreateAutoDevice
+//@   modifies lookups, lookupKind, lookupKinds
+//@   ensures lookups == old(lookups) + 1 && lookupKind == 5 && lookupKinds[5] && (forall k int :: k != 5 ==> lookupKinds[k] == old(lookupKinds[k]))
+//@   ensures err == nil ==> p != nil && d != nil && d.Auth != nil
+
+//@ pred okValid(r agd.DeviceResult) = asptr(r, agd.DeviceResultOK) != nil && asptr(r, agd.DeviceResultOK).Profile != nil && asptr(r, agd.DeviceResultOK).Device != nil && asptr(r, agd.DeviceResultOK).Device.Auth != nil
+//@ pred DF(f *Default) = f != nil && f.srv != nil && f.db != nil && f.logger != nil
+
+//@ func supportsDeviceID
+//@   property C03
+//@   ensures ok == (p == agd.ProtoDNS || p == agd.ProtoDoH || p == agd.ProtoDoQ || p == agd.ProtoDoT)
+//@   ensures dnscrypt-always-anonymous: p == agd.ProtoDNSCrypt ==> !ok
+
+//@ ghost authPassed bool
+//@ func (*Default).authenticate
+//@   property C03
+//@   requires DF(f) && srvReqInfo != nil && dev != nil && dev.Auth != nil && (dev.Auth.Enabled ==> dev.Auth.PasswordHash != nil)
+//@   modifies hashChecks, hashOK, authPassed
+//@   ghostset authPassed = (err == nil)
+//@   ensures authPassed == (err == nil)
+//@   ensures decision-table: (err == nil) == (!dev.Auth.Enabled ||
+//@             (f.srv.Protocol != agd.ProtoDoH && !dev.Auth.DoHAuthOnly) ||
+//@             (f.srv.Protocol == agd.ProtoDoH && srvReqInfo.Userinfo == nil && !dev.Auth.DoHAuthOnly) ||
+//@             (f.srv.Protocol == agd.ProtoDoH && srvReqInfo.Userinfo != nil && uiPasswordSet(srvReqInfo.Userinfo) &&
+//@               hashChecks == old(hashChecks) + 1 && hashOK))
+//@   ensures doh-only-never-elsewhere: dev.Auth.Enabled && dev.Auth.DoHAuthOnly && (f.srv.Protocol != agd.ProtoDoH || srvReqInfo.Userinfo == nil) ==> err != nil
+//@   ensures wrong-or-empty-password-rejected: dev.Auth.Enabled && f.srv.Protocol == agd.ProtoDoH && srvReqInfo.Userinfo != nil &&
+//@             (!uiPasswordSet(srvReqInfo.Userinfo) || !hashOK) ==> err != nil
+
+//@ func (*Default).authenticatedResult
+//@   property C03
+//@   requires DF(f) && srvReqInfo != nil && res != nil && res.Device != nil && res.Device.Auth != nil &&
+//@            (res.Device.Auth.Enabled ==> res.Device.Auth.PasswordHash != nil)
+//@   modifies hashChecks, hashOK, authPassed
+//@   ensures recognised-only-when-authenticated: isptr(r, agd.DeviceResultOK) == authPassed
+//@   ensures authPassed ==> r == asiface(res)
+//@   ensures !authPassed ==> isptr(r, agd.DeviceResultAuthenticationFailure)
+
+//@ func (*Default).newDeviceResult
+//@   property C03
+//@   requires DF(f) && (err == nil && p != nil ==> d != nil && d.Auth != nil)
+//@   ensures isptr(r, agd.DeviceResultOK) ==> okValid(r)
+//@   ensures ok-only-for-a-found-pair: isptr(r, agd.DeviceResultOK) ==> err == nil && p != nil &&
+//@             asptr(r, agd.DeviceResultOK).Profile == p && asptr(r, agd.DeviceResultOK).Device == d
+//@   ensures err == nil && p != nil ==> isptr(r, agd.DeviceResultOK)
+//@   ensures err == nil && p == nil ==> r == nil
+
+// isProfileDBNotFound / errorIsOpt only inspect the error.
+//@ func isProfileDBNotFound
+//@   modifies nothing
+//@ func errorIsOpt
+//@   modifies nothing
+
+//@ fun srvBinds(s *agd.Server) bool
+//@ fun srvHasAddr(s *agd.Server, a netip.AddrPort) bool
+//@ func (*agd.Server).BindsToInterfaces
+//@   modifies nothing
+//@   ensures ok == srvBinds(s)
+//@ func (*agd.Server).HasAddr
+//@   modifies nothing
+//@   ensures ok == srvHasAddr(s, addr)
+
+//@ func (*Default).deviceByLocalAddr
+//@   property C03
+//@   requires DF(f)
+//@   modifies lookups, lookupKind, lookupKinds
+//@   ensures lookups == old(lookups) + 1 && lookupKind == 4 && (forall k int :: k != 4 ==> lookupKinds[k] == old(lookupKinds[k]))
+//@   ensures r != nil && (isptr(r, agd.DeviceResultOK) ==> okValid(r))
+
+//@ func (*Default).deviceByAddrs
+//@   property C03
+//@   requires DF(f)
+//@   modifies lookups, lookupKind, lookupKinds
+//@   ensures dedicated-only-on-bound-foreign-address: lookupKinds[4] != old(lookupKinds[4]) ==> srvBinds(f.srv) && !srvHasAddr(f.srv, laddr)
+//@   ensures linked-ip-only-when-enabled: lookupKinds[3] != old(lookupKinds[3]) ==> f.srv.LinkedIPEnabled
+//@   ensures forall k int :: k != 3 && k != 4 ==> lookupKinds[k] == old(lookupKinds[k])
+//@   ensures isptr(r, agd.DeviceResultOK) ==> okValid(r)
+
+//@ func (*Default).deviceByExtID
+//@   property C03
+//@   requires DF(f) && extID != nil
+//@   modifies lookups, lookupKind, lookupKinds
+//@   ensures forall k int :: k != 2 && k != 5 ==> lookupKinds[k] == old(lookupKinds[k])
+//@   ensures err == nil && prof != nil ==> dev != nil && dev.Auth != nil
+
+// deviceFromDB: the precedence of the identifiers.
+//@ func (*Default).deviceFromDB
+//@   property C03
+//@   requires DF(f)
+//@   modifies lookups, lookupKind, lookupKinds
+//@   ensures device-id-first: id != "" ==> lookups == old(lookups) + 1 && lookupKind == 1 && (forall k int :: k != 1 ==> lookupKinds[k] == old(lookupKinds[k]))
+//@   ensures then-human-id: id == "" && extID != nil ==> (forall k int :: k != 2 && k != 5 ==> lookupKinds[k] == old(lookupKinds[k]))
+//@   ensures addresses-on-plain-dns-only: id == "" && extID == nil && f.srv.Protocol != agd.ProtoDNS ==> r == nil && lookups == old(lookups)
+//@   ensures id == "" && extID == nil ==> (forall k int :: k != 3 && k != 4 ==> lookupKinds[k] == old(lookupKinds[k]))
+//@   ensures isptr(r, agd.DeviceResultOK) ==> okValid(r)
+
+//@ func (*Default).findDevice
+//@   property C03
+//@   requires DF(f)
+//@   modifies lookups, lookupKind, lookupKinds
+//@   ensures never-a-deleted-profile: isptr(r, agd.DeviceResultOK) ==> !asptr(r, agd.DeviceResultOK).Profile.Deleted
+//@   ensures isptr(r, agd.DeviceResultOK) ==> okValid(r)
+
+// The extraction of the identifier from the request (URL path or basic-auth
+// user, TLS server name, EDNS option) is string handling outside the proved
+// subset; it does not consult the database or the authenticator.
+//@ func (*Default).deviceData
+//@   modifies nothing
+//@ func dnsserver.MustRequestInfoFromContext
+//@   modifies nothing
+//@   ensures ri != nil
+
+//@ func (*Default).Find
+//@   property C03
+//@   requires DF(f) && req != nil
+//@   requires forall d *agd.Device :: d.Auth != nil ==> (d.Auth.Enabled ==> d.Auth.PasswordHash != nil)
+//@   modifies lookups, lookupKind, lookupKinds, hashChecks, hashOK, authPassed
+//@   ensures dnscrypt-always-anonymous: f.srv.Protocol == agd.ProtoDNSCrypt ==> r == nil && lookups == old(lookups)
+//@   ensures recognised-only-when-authenticated: isptr(r, agd.DeviceResultOK) ==> authPassed
+//@   ensures never-a-deleted-profile: isptr(r, agd.DeviceResultOK) ==> !asptr(r, agd.DeviceResultOK).Profile.Deleted
